@@ -178,6 +178,39 @@ let run_uf (ops : ostring list) : ostring =
   end) ops;
   Buffer.contents b
 
+(* ---------- the reference byte queue Lib/UFSpec.v (the specification of C15) ---------- *)
+let bq_summary (q : bq) : ostring =
+  let (((((( g, p), f), gc), _), good), eof) = bq_obs q in
+  "|" ^ string_of_z g ^ "," ^ string_of_z p ^ "," ^ string_of_z f ^ "," ^ b01 good ^ b01 eof ^ "," ^ string_of_z gc
+let run_bq (ops : ostring list) : ostring =
+  let b = Buffer.create 400 in
+  Buffer.add_string b "BQ";
+  let st = ref bq_init in
+  let stop = ref false in
+  List.iter (fun op -> if not !stop && String.length op > 0 then begin
+    let rest = String.sub op 1 (String.length op - 1) in
+    let num () = z_of_string (if rest = "" then "0" else rest) in
+    let o = (match op.[0] with
+      | 'r' -> Some (URead (num ())) | 's' -> Some (USeekg (num ())) | 'w' -> Some (UWrite (bytes_of_hex rest))
+      | 'c' -> Some (UWriteC (bytes_of_hex rest)) | 'n' -> Some UNext | 'd' -> Some UDrop
+      | 'F' -> Some (USetFileSize (num ())) | 'B' -> Some (USetBufferSize (num ())) | 'C' -> Some (USetDcs (num ()))
+      | 'a' -> Some UAbort | _ -> None) in
+    match o with
+    | None -> Buffer.add_string b " ?"
+    | Some o ->
+        let blocked = (match o with URead n -> not (bq_read_ok !st n) | UWrite _ | UWriteC _ -> not (bq_write_ok !st) | _ -> false) in
+        if blocked then (Buffer.add_string b " blocked"; stop := true)
+        else match bq_step !st o with
+          | None -> Buffer.add_string b " outofscope"; stop := true
+          | Some (q', bytes) ->
+              st := q';
+              Buffer.add_char b ' ';
+              Buffer.add_char b op.[0];
+              (match o with URead _ -> Buffer.add_string b ("=" ^ hex_of_bytes bytes) | _ -> ());
+              Buffer.add_string b (bq_summary q')
+  end) ops;
+  Buffer.contents b
+
 (* ---------- file layer: Lib/FileModel.v with the real zlib ---------- *)
 external vb_deflate : int -> ostring -> ostring = "vb_deflate"
 external vb_inflate : ostring -> int -> int * ostring = "vb_inflate"
@@ -290,6 +323,7 @@ let process line =
         string_of_z c ^ ":rt=" ^ b01 (rt_ok c) ^ ":rtx=" ^ b01 (List.exists (fun x -> Z.eqb x c) rt_exceptions)) object_classes)
   | "Q" :: ops -> run_queue ops
   | "U" :: ops -> run_uf ops
+  | "BQ" :: ops -> run_bq ops
   | "FW" :: _ -> run_fw line
   | "FR" :: hex :: _ -> run_fr (if hex = "-" then "" else hex)
   | [""] | [] -> ""
